@@ -89,6 +89,7 @@ type tr struct {
 	recvName    string                    // the receiver's name in the source (call-table keys are written with `k`)
 	loopBase    string                    // name under which the loops of an inlined helper are numbered (the calling unit's)
 	inWalk      bool                      // translating the body of a Walk closure (it does not touch the store)
+	extraEffArg string                    // recordEffect: a rendered value put in front of the call's arguments (the element a method is called on)
 	indexAlias  map[string]string         // "xs[i]" -> the element variable of the enclosing index loop over xs
 	lenOf       map[string]ast.Expr       // Go variable bound by `n := len(xs)` -> xs
 	mapRangeIdx map[*ast.BlockStmt]int    // map-range loops (by body) in order of first translation = source order
@@ -598,6 +599,26 @@ func (t *tr) call(e *ast.CallExpr, en env) V {
 			return V{term, cs.Value.T}
 		}
 	}
+	if sel, ok := e.Fun.(*ast.SelectorExpr); ok {
+		if ix, ok := sel.X.(*ast.IndexExpr); ok && t.recvName != "" && identName(ix.X) == t.recvName {
+			// `h[i].Method(…)` on an element of the receiver slice (a dispatcher over listeners)
+			if cs, ok := t.u.Calls["k[]."+sel.Sel.Name]; ok {
+				el := t.expr(ix, en)
+				r, okr := renderers[el.T]
+				if !okr {
+					return t.bad("receiver element of type %s", el.T)
+				}
+				if cs.Effect != "" {
+					t.extraEffArg = strings.ReplaceAll(r, "%s", el.L)
+					t.pre = append(t.pre, t.recordEffect(cs.Effect, cs.Args, e, en))
+					t.extraEffArg = ""
+				}
+				v := cs.Value
+				v.L = strings.ReplaceAll(v.L, "%0", atom(el.L))
+				return v
+			}
+		}
+	}
 	if cs, ok := t.u.Calls[callee]; ok {
 		if cs.Effect != "" {
 			t.pre = append(t.pre, t.recordEffect(cs.Effect, cs.Args, e, en))
@@ -724,6 +745,16 @@ func (t *tr) call(e *ast.CallExpr, en env) V {
 		recv := t.expr(f.X, en)
 		if u, ok := t.reg[recv.T+"."+f.Sel.Name]; ok {
 			return t.unitCall(u, &recv, e.Args, en)
+		}
+		if strings.HasPrefix(string(recv.T), "Option ") {
+			// a method call through an interface field that may be nil (`k.hooks.X(…)` under
+			// `if k.hooks != nil`): on nil Go panics; here the absent value is the type's default
+			inner := LT(strings.TrimPrefix(string(recv.T), "Option "))
+			if u, ok := t.reg[string(inner)+"."+f.Sel.Name]; ok {
+				r2 := V{"(" + recv.L + ".getD default)", inner}
+				t.notes = append(t.notes, "a method called through a possibly-nil interface field: nil would panic in Go (the call is guarded by `!= nil`)")
+				return t.unitCall(u, &r2, e.Args, en)
+			}
 		}
 		if m, ok := methods[recv.T+"."+f.Sel.Name]; ok {
 			return t.apply(m, &recv, e.Args, en)
@@ -2583,6 +2614,9 @@ func (t *tr) recordEffect(name string, idx []int, call *ast.CallExpr, en env) st
 		return t.failf("effect %s in a unit without an effect list", name)
 	}
 	var args []string
+	if t.extraEffArg != "" {
+		args = append(args, t.extraEffArg)
+	}
 	var add func(a ast.Expr)
 	add = func(a ast.Expr) {
 		for _, v := range t.keyParts(a, en) {
@@ -2850,7 +2884,7 @@ var groupDeps = map[string][]string{
 	"Invariants": {"Pure", "Getters"},
 }
 
-var groupOrder = []string{"Pure", "Msgs", "Bids", "Auctions", "Settle", "Match", "Payout", "Server", "Genesis", "Import", "Export", "Getters", "Queries", "Fees", "Invariants"}
+var groupOrder = []string{"Pure", "Msgs", "Bids", "Auctions", "Settle", "Match", "Payout", "Server", "Genesis", "Import", "Export", "Getters", "Queries", "Fees", "Invariants", "Hooks"}
 
 // translateUnits renders Generated/Code/<Group>.lean, one file per group of units.
 func (w *World) translateUnits() map[string]string {
